@@ -46,4 +46,20 @@ example :
     newlineCount (render (.mk (strBytes "d" |>.map .rune) [((strBytes "Comment").map .rune, evil)] []) 0) = 2 := by
   decide
 
+/-- the regenerated fact: the path printed in front of a report goes through the same escaping -/
+theorem sanitizes_path : Gen.cliSanitizesPath = true := by decide
+
+/-- THE PATH PREFIX: whatever bytes a file name consists of (newline, ESC, C1 bytes, DEL, invalid UTF-8), what is printed
+    in front of its report contains no control character at all — so it is part of the report's first line and cannot
+    start a line of its own -/
+theorem path_no_raw_control (path : List RUnit) : ∀ r ∈ pathPrefix path, isControlRune r = false := by
+  intro r hr
+  unfold pathPrefix at hr
+  rw [sanitizes_path] at hr
+  simp only [if_true, List.mem_append] at hr
+  rcases hr with hr | hr
+  · exact Lemmas.Cli.sanitize_clean sanitizes path r hr
+  · simp only [List.mem_cons, List.mem_nil_iff, or_false] at hr
+    rcases hr with rfl | rfl <;> decide
+
 end WhatIs.C20
